@@ -460,6 +460,7 @@ class Exec:
             size = s.sizeof(ft); a = s.addoff(p.off, None, off)
             if isinstance(a, int):
                 for k in [k for k, c in o.cells.items() if k < a + size and a < k + c[1] and k != a]:
+                    if k not in o.cells: continue          # already removed together with an earlier overlapping cell
                     s.split_cell(o, k)
                     for kk in [kk for kk, c in o.cells.items() if kk < a + size and a < kk + c[1] and kk != a]:
                         del o.cells[kk]
